@@ -4,6 +4,16 @@
 // Contracts for package storage (build tag verif only; no executable code).
 package storage
 
+import (
+	"github.com/marekgalovic/anndb/index"
+	pb "github.com/marekgalovic/anndb/protobuf"
+	uuid "github.com/satori/go.uuid"
+)
+
+var _ index.Metadata
+var _ *pb.BatchItem
+var _ uuid.UUID
+
 // ---------------------------------------------------------------------------------------------
 // C16: replica placement
 
@@ -43,3 +53,208 @@ package storage
 //@ invariant [independent] forall p int, q int :: 0 <= p && p < q && q < i && len(partitionsNodeIds[p]) > 0 ==> partitionsNodeIds[p].ref != partitionsNodeIds[q].ref
 //@ invariant [noalias-buffer] forall p int :: 0 <= p && p < i && len(partitionsNodeIds[p]) > 0 ==> partitionsNodeIds[p].ref != nodeIds.ref
 //@ invariant [out] len(partitionsNodeIds) == partitionCount && fresh(partitionsNodeIds)
+
+// ---------------------------------------------------------------------------------------------
+// C02 / C04: applying one replicated entry to a partition is a function of (contents, entry), with the outcome a
+// sequential map would report. `outcome` is the value handed to Notify (captured as ghost state).
+
+//@ spec pix(p *partition) *index.Hnsw = p.index
+//@ spec pwf(p *partition) bool = p.index != nil && p.notificator != nil && wfShards(p.index) && wfStored(p.index)
+
+//@ func (*storage.partition).insertValue
+//@ props C02 C04 C11
+//@ safety C12
+//@ ghost notified int = 0
+//@ ghost outcome interface{} = nil
+//@ at call Notificator).Notify
+//@ set notified = notified + 1
+//@ set outcome = $arg2
+//@ end
+//@ requires [wf] pwf(this)
+//@ requires [level] level >= 0 && level < 2147483648
+//@ ensures [notify-once] notified == 1 && isnil(ret)
+//@ ensures [exists] old(live(pix(this), id)) ==> outcome == index.ItemAlreadyExistsError && vertexOf(pix(this), id) == old(vertexOf(pix(this), id)) && live(pix(this), id) && pix(this).len == old(pix(this).len) && pix(this).bytesSize == old(pix(this).bytesSize)
+//@ ensures [stored] !old(live(pix(this), id)) ==> isnil(outcome) && live(pix(this), id) && vertexOf(pix(this), id).vector == value && vertexOf(pix(this), id).metadata == metadata && vertexOf(pix(this), id).id == id
+//@ ensures [others] forall j uuid.UUID :: j != id ==> live(pix(this), j) == old(live(pix(this), j)) && vertexOf(pix(this), j) == old(vertexOf(pix(this), j))
+//@ modifies *
+
+//@ func (*storage.partition).deleteValue
+//@ props C02 C04 C11
+//@ safety C12
+//@ ghost notified int = 0
+//@ ghost outcome interface{} = nil
+//@ at call Notificator).Notify
+//@ set notified = notified + 1
+//@ set outcome = $arg2
+//@ end
+//@ requires [wf] pwf(this)
+//@ ensures [notify-once] notified == 1 && isnil(ret)
+//@ ensures [absent] !old(live(pix(this), id)) ==> outcome == index.ItemNotFoundError && !live(pix(this), id) && pix(this).len == old(pix(this).len) && pix(this).bytesSize == old(pix(this).bytesSize)
+//@ ensures [removed] old(live(pix(this), id)) ==> isnil(outcome) && !live(pix(this), id)
+//@ ensures [others] forall j uuid.UUID :: j != id ==> live(pix(this), j) == old(live(pix(this), j)) && vertexOf(pix(this), j) == old(vertexOf(pix(this), j))
+//@ modifies *
+
+// update = replace the vector, merge metadata (new keys win, old keys are kept)
+//@ func (*storage.partition).updateValue
+//@ props C02 C04 C11
+//@ safety C12
+//@ ghost notified int = 0
+//@ ghost outcome interface{} = nil
+//@ at call Notificator).Notify
+//@ set notified = notified + 1
+//@ set outcome = $arg2
+//@ end
+//@ requires [wf] pwf(this)
+//@ requires [own-map] metadata != nil ==> forall v *index.hnswVertex :: v.metadata != metadata
+//@ ensures [notify-once] notified == 1 && isnil(ret)
+//@ ensures [absent] !old(live(pix(this), id)) ==> outcome == index.ItemNotFoundError && !live(pix(this), id) && pix(this).len == old(pix(this).len) && pix(this).bytesSize == old(pix(this).bytesSize)
+//@ ensures [updated] old(live(pix(this), id)) ==> isnil(outcome) && live(pix(this), id) && vertexOf(pix(this), id).vector == value && vertexOf(pix(this), id).metadata != nil && vertexOf(pix(this), id).id == id
+//@ ensures [merge-new-wins] old(live(pix(this), id)) ==> forall k string :: old(has(metadata0, k)) ==> has(vertexOf(pix(this), id).metadata, k) && vertexOf(pix(this), id).metadata[k] == old(metadata0[k])
+//@ ensures [merge-old-kept] old(live(pix(this), id)) ==> forall k string :: !old(has(metadata0, k)) && old(has(vertexOf(pix(this), id).metadata, k)) ==> has(vertexOf(pix(this), id).metadata, k) && vertexOf(pix(this), id).metadata[k] == old(vertexOf(pix(this), id).metadata[k])
+//@ ensures [merge-nothing-else] old(live(pix(this), id)) ==> forall k string :: has(vertexOf(pix(this), id).metadata, k) ==> old(has(metadata0, k)) || old(has(vertexOf(pix(this), id).metadata, k))
+//@ ensures [others] forall j uuid.UUID :: j != id ==> live(pix(this), j) == old(live(pix(this), j)) && vertexOf(pix(this), j) == old(vertexOf(pix(this), j))
+//@ modifies *
+//@ loop 1
+//@ invariant [state] pwf(this) && notified == 0 && !live(pix(this), id)
+//@ invariant [others] forall j uuid.UUID :: j != id ==> live(pix(this), j) == old(live(pix(this), j)) && vertexOf(pix(this), j) == old(vertexOf(pix(this), j))
+//@ invariant [oldmeta] forall k string :: has($map, k) == old(has(vertexOf(pix(this), id).metadata, k)) && $map[k] == old(vertexOf(pix(this), id).metadata[k])
+//@ invariant [target] metadata != nil && metadata != $map && (metadata0 != nil ==> metadata == metadata0) && (metadata0 == nil ==> fresh(metadata))
+//@ invariant [new-wins] forall k string :: old(has(metadata0, k)) ==> has(metadata, k) && metadata[k] == old(metadata0[k])
+//@ invariant [visited-kept] forall k string :: $visited[k] && !old(has(metadata0, k)) ==> has(metadata, k) && metadata[k] == $map[k]
+//@ invariant [nothing-else] forall k string :: has(metadata, k) ==> old(has(metadata0, k)) || ($visited[k] && has($map, k))
+//@ invariant [visited-sub] forall k string :: $visited[k] ==> has($map, k)
+
+// ---------------------------------------------------------------------------------------------
+// dependencies (assumed)
+
+// uuid.FromBytes succeeds exactly on 16-byte input and is a function of the bytes (satori/go.uuid: UnmarshalBinary).
+//@ ufunc uuidOfBytes([]byte) uuid.UUID
+//@ func github.com/satori/go.uuid.FromBytes
+//@ props C02 C04 C11 C12 C14 C09 C10
+//@ assume
+//@ noalloc
+//@ ensures [length] isnil(err) == (len(input) == 16)
+//@ ensures [value] isnil(err) ==> u == uuidOfBytes(input)
+//@ modifies nothing
+
+// proto.Unmarshal: fills the message it is given; nothing is assumed about the decoded content.
+//@ func github.com/golang/protobuf/proto.Unmarshal
+//@ props C02 C04 C11 C12 C14
+//@ assume
+//@ modifies fields(pb)
+
+//@ spec itemId(items []*pb.BatchItem, i int) uuid.UUID = uuidOfBytes(items[i].Id)
+//@ spec inBatch(items []*pb.BatchItem, j uuid.UUID, n int) bool = exists i int :: 0 <= i && i < n && itemId(items, i) == j
+//@ spec wfItems(items []*pb.BatchItem) bool = forall i int :: 0 <= i && i < len(items) ==> items[i] != nil && len(items[i].Id) == 16
+
+// batch insert: one notification carrying the per-id error map; ids outside the batch are untouched; every batch id is stored afterwards
+//@ func (*storage.partition).batchInsertValue
+//@ props C02 C04 C11
+//@ safety C12
+//@ ghost notified int = 0
+//@ ghost outcome interface{} = nil
+//@ at call Notificator).Notify
+//@ set notified = notified + 1
+//@ set outcome = $arg2
+//@ end
+//@ requires [wf] pwf(this)
+//@ requires [wellformed] wfItems(items)
+//@ requires [levels] forall i int :: 0 <= i && i < len(items) ==> items[i].Level >= 0
+//@ ensures [notify-once] notified == 1 && isnil(ret) && istype(outcome, partitionBatchResult)
+//@ ensures [all-stored] forall i int :: 0 <= i && i < len(items) ==> live(pix(this), itemId(items, i))
+//@ ensures [others] forall j uuid.UUID :: !inBatch(items, j, len(items)) ==> live(pix(this), j) == old(live(pix(this), j)) && vertexOf(pix(this), j) == old(vertexOf(pix(this), j))
+//@ ensures [errors-were-present] forall j uuid.UUID :: has(outcome.(partitionBatchResult), j) ==> inBatch(items, j, len(items))
+//@ ensures [error-values] forall j uuid.UUID :: has(outcome.(partitionBatchResult), j) ==> outcome.(partitionBatchResult)[j] == index.ItemAlreadyExistsError
+//@ ensures [existing-ids-fail] forall i int :: 0 <= i && i < len(items) && old(live(pix(this), itemId(items, i))) ==> has(outcome.(partitionBatchResult), itemId(items, i)) && outcome.(partitionBatchResult)[itemId(items, i)] == index.ItemAlreadyExistsError
+//@ modifies *
+//@ loop 1
+//@ invariant [range] 0 - 1 <= rangeindex && rangeindex < len(items) || (len(items) == 0 && rangeindex == 0 - 1)
+//@ invariant [state] pwf(this) && notified == 0 && errors != nil && fresh(errors)
+//@ invariant [items-fixed] wfItems(items) && forall i int :: 0 <= i && i < len(items) ==> items[i].Level >= 0 && items[i] == old(items[i]) && items[i].Id == old(items[i].Id)
+//@ invariant [all-stored] forall i int :: 0 <= i && i <= rangeindex ==> live(pix(this), itemId(items, i))
+//@ invariant [others] forall j uuid.UUID :: !inBatch(items, j, rangeindex + 1) ==> live(pix(this), j) == old(live(pix(this), j)) && vertexOf(pix(this), j) == old(vertexOf(pix(this), j))
+//@ invariant [errors-were-present] forall j uuid.UUID :: has(errors, j) ==> inBatch(items, j, rangeindex + 1)
+//@ invariant [error-values] forall j uuid.UUID :: has(errors, j) ==> errors[j] == index.ItemAlreadyExistsError
+//@ invariant [existing-ids-fail] forall i int :: 0 <= i && i <= rangeindex && old(live(pix(this), itemId(items, i))) ==> has(errors, itemId(items, i)) && errors[itemId(items, i)] == index.ItemAlreadyExistsError
+//@ invariant [monotone] forall j uuid.UUID :: old(live(pix(this), j)) ==> live(pix(this), j) && vertexOf(pix(this), j) == old(vertexOf(pix(this), j))
+//@ invariant [live-origin] forall j uuid.UUID :: live(pix(this), j) && !old(live(pix(this), j)) ==> inBatch(items, j, rangeindex + 1)
+
+//@ func (*storage.partition).batchDeleteValue
+//@ props C02 C04 C11
+//@ safety C12
+//@ ghost notified int = 0
+//@ ghost outcome interface{} = nil
+//@ at call Notificator).Notify
+//@ set notified = notified + 1
+//@ set outcome = $arg2
+//@ end
+//@ requires [wf] pwf(this)
+//@ requires [wellformed] wfItems(items)
+//@ ensures [notify-once] notified == 1 && isnil(ret) && istype(outcome, partitionBatchResult)
+//@ ensures [all-removed] forall i int :: 0 <= i && i < len(items) ==> !live(pix(this), itemId(items, i))
+//@ ensures [others] forall j uuid.UUID :: !inBatch(items, j, len(items)) ==> live(pix(this), j) == old(live(pix(this), j)) && vertexOf(pix(this), j) == old(vertexOf(pix(this), j))
+//@ ensures [absent-ids-fail] forall i int :: 0 <= i && i < len(items) && !old(live(pix(this), itemId(items, i))) ==> has(outcome.(partitionBatchResult), itemId(items, i)) && outcome.(partitionBatchResult)[itemId(items, i)] == index.ItemNotFoundError
+//@ ensures [errors-in-batch] forall j uuid.UUID :: has(outcome.(partitionBatchResult), j) ==> inBatch(items, j, len(items))
+//@ modifies *
+//@ loop 1
+//@ invariant [range] 0 - 1 <= rangeindex && rangeindex < len(items) || (len(items) == 0 && rangeindex == 0 - 1)
+//@ invariant [state] pwf(this) && notified == 0 && errors != nil && fresh(errors)
+//@ invariant [items-fixed] wfItems(items) && forall i int :: 0 <= i && i < len(items) ==> items[i] == old(items[i]) && items[i].Id == old(items[i].Id)
+//@ invariant [all-removed] forall i int :: 0 <= i && i <= rangeindex ==> !live(pix(this), itemId(items, i))
+//@ invariant [others] forall j uuid.UUID :: !inBatch(items, j, rangeindex + 1) ==> live(pix(this), j) == old(live(pix(this), j)) && vertexOf(pix(this), j) == old(vertexOf(pix(this), j))
+//@ invariant [absent-ids-fail] forall i int :: 0 <= i && i <= rangeindex && !old(live(pix(this), itemId(items, i))) ==> has(errors, itemId(items, i)) && errors[itemId(items, i)] == index.ItemNotFoundError
+//@ invariant [errors-in-batch] forall j uuid.UUID :: has(errors, j) ==> inBatch(items, j, rangeindex + 1)
+//@ invariant [monotone] forall j uuid.UUID :: !old(live(pix(this), j)) ==> !live(pix(this), j)
+
+//@ func (*storage.partition).batchUpdateValue
+//@ props C02 C04 C11
+//@ safety C12
+//@ ghost notified int = 0
+//@ ghost outcome interface{} = nil
+//@ at call Notificator).Notify
+//@ set notified = notified + 1
+//@ set outcome = $arg2
+//@ end
+//@ requires [wf] pwf(this)
+//@ requires [wellformed] wfItems(items)
+//@ ensures [notify-once] notified == 1 && isnil(ret) && istype(outcome, partitionBatchResult)
+//@ ensures [others] forall j uuid.UUID :: !inBatch(items, j, len(items)) ==> live(pix(this), j) == old(live(pix(this), j)) && vertexOf(pix(this), j) == old(vertexOf(pix(this), j))
+//@ ensures [liveness-kept] forall j uuid.UUID :: live(pix(this), j) == old(live(pix(this), j))
+//@ ensures [absent-ids-fail] forall i int :: 0 <= i && i < len(items) && !old(live(pix(this), itemId(items, i))) ==> has(outcome.(partitionBatchResult), itemId(items, i)) && outcome.(partitionBatchResult)[itemId(items, i)] == index.ItemNotFoundError
+//@ ensures [errors-in-batch] forall j uuid.UUID :: has(outcome.(partitionBatchResult), j) ==> inBatch(items, j, len(items))
+//@ ensures [present-ids-ok] forall j uuid.UUID :: has(outcome.(partitionBatchResult), j) ==> !old(live(pix(this), j))
+//@ modifies *
+//@ loop 1
+//@ invariant [range] 0 - 1 <= rangeindex && rangeindex < len(items) || (len(items) == 0 && rangeindex == 0 - 1)
+//@ invariant [state] pwf(this) && notified == 0 && errors != nil && fresh(errors)
+//@ invariant [items-fixed] wfItems(items) && forall i int :: 0 <= i && i < len(items) ==> items[i] == old(items[i]) && items[i].Id == old(items[i].Id)
+//@ invariant [others] forall j uuid.UUID :: !inBatch(items, j, rangeindex + 1) ==> live(pix(this), j) == old(live(pix(this), j)) && vertexOf(pix(this), j) == old(vertexOf(pix(this), j))
+//@ invariant [liveness-kept] forall j uuid.UUID :: live(pix(this), j) == old(live(pix(this), j))
+//@ invariant [absent-ids-fail] forall i int :: 0 <= i && i <= rangeindex && !old(live(pix(this), itemId(items, i))) ==> has(errors, itemId(items, i)) && errors[itemId(items, i)] == index.ItemNotFoundError
+//@ invariant [errors-in-batch] forall j uuid.UUID :: has(errors, j) ==> inBatch(items, j, rangeindex + 1)
+//@ invariant [present-ids-ok] forall j uuid.UUID :: has(errors, j) ==> !old(live(pix(this), j))
+//@ loop 2
+//@ invariant [target] metadata != nil
+//@ invariant [state] pwf(this) && notified == 0 && errors != nil && fresh(errors) && !live(pix(this), id)
+//@ invariant [items-fixed] wfItems(items) && forall i int :: 0 <= i && i < len(items) ==> items[i] == old(items[i]) && items[i].Id == old(items[i].Id)
+
+// C04: one replicated entry. Well-formedness of the decoded entry (16-byte ids, non-negative levels) is what proposers must
+// establish (C12); under it the apply step never fails and notifies exactly once.
+//@ func (*storage.partition).process
+//@ props C04 C02 C11
+//@ safety C12
+//@ ghost notified int = 0
+//@ ghost outcome interface{} = nil
+//@ at call Notificator).Notify
+//@ set notified = notified + 1
+//@ set outcome = $arg2
+//@ end
+//@ ghost decoded int = 0
+//@ at call proto.Unmarshal
+//@ assume [wellformed-entry] isnil($ret0) ==> len(change.NotificationId) == 16 && len(change.Id) == 16 && change.Level >= 0 && wfItems(change.BatchItems) && (forall i int :: 0 <= i && i < len(change.BatchItems) ==> change.BatchItems[i].Level >= 0) && (change.Metadata != nil ==> forall v *index.hnswVertex :: v.metadata != change.Metadata)
+//@ set decoded = 1
+//@ end
+//@ requires [wf] pwf(this)
+//@ ensures [never-fails] decoded == 1 ==> isnil(ret) || notified == 0
+//@ ensures [applies] decoded == 1 && isnil(ret) ==> pwf(this)
+//@ modifies *
